@@ -1,22 +1,22 @@
 --------------------------- MODULE MC_Determinism ---------------------------
-(* model-checking instance of Determinism.  Five modules:                    *)
+(* model-checking instance of Determinism.  Four modules:                    *)
 (*   pa, qa  same base name `a` in the packages p and q, same declarations   *)
-(*   ta      base name `a` at top level (no package)                         *)
-(*   ro      another base name in package r, same declarations               *)
-(*   b       the module whose .pxd the others cimport (pa, qa, ta, ro depend *)
-(*           on b); it declares only G                                       *)
+(*   ro      other scopes (another base name, another package) that contain  *)
+(*           the same declarations                                           *)
+(*   b       the module whose .pxd the others cimport (pa, qa, ro depend on  *)
+(*           b); it declares only G                                          *)
 (* Declarations: T is scoped (its derived names are mangled with the         *)
 (* declaring module), G is global (declared in b's .pxd: same derived name   *)
 (* everywhere, a legitimate memo hit across jobs).                           *)
 EXTENDS Determinism
-ModsDef == {"pa", "qa", "ta", "ro", "b"}
+ModsDef == {"pa", "qa", "ro", "b"}
 DepsDef == [m \in ModsDef |-> IF m = "b" THEN {} ELSE {"b"}]
-BaseDef == [m \in ModsDef |-> IF m \in {"pa", "qa", "ta"} THEN "a" ELSE IF m = "ro" THEN "o" ELSE "b"]
+BaseDef == [m \in ModsDef |-> IF m \in {"pa", "qa"} THEN "a" ELSE IF m = "ro" THEN "o" ELSE "b"]
 DeclsDef == [m \in ModsDef |-> IF m = "b" THEN {"G"} ELSE {"T", "G"}]
 ScopedDef == {"T"}
-(* every pair of modules occurs in both relative orders, every module first and last *)
-OrdersDef == {<<"pa", "qa", "ta", "ro", "b">>, <<"b", "ro", "ta", "qa", "pa">>, <<"qa", "b", "pa", "ro", "ta">>,
-              <<"ta", "ro", "pa", "b", "qa">>, <<"ro", "pa", "b", "ta", "qa">>, <<"b", "ta", "qa", "pa", "ro">>}
+(* every pair of modules occurs in both relative orders and adjacent, every module is first and last in some order *)
+OrdersDef == {<<"pa", "qa", "ro", "b">>, <<"b", "ro", "qa", "pa">>, <<"qa", "b", "pa", "ro">>,
+              <<"ro", "pa", "b", "qa">>, <<"qa", "ro", "b", "pa">>, <<"pa", "b", "qa", "ro">>}
 RECURSIVE PermsOf(_)
 PermsOf(S) == IF S = {} THEN {<<>>} ELSE UNION {{<<x>> \o p : p \in PermsOf(S \ {x})} : x \in S}
 OrdersAll == PermsOf(ModsDef)
